@@ -7,7 +7,7 @@ package main
 // after rand.Seed(s) it is deterministic (Go 1.23, go.mod "go 1.22": Seed is honoured).
 // The harness therefore seeds it, calls the real function, seeds it again with the same
 // value and replays the stream to recompute the REFERENCE keys in float64 exactly as
-// the fixed code computes them:  ki = math.Log(w_i) - math.Log(-math.Log(u_i)).
+// the fixed code computes them:  ki = lnWeight(w_i) - math.Log(-math.Log(u_i)), lnWeight(w) = math.Log(frac) + exp*Ln2 with (frac, exp) = math.Frexp(w).
 //
 //   c20keys <seed> <n> <w0> ... <w(n-1)>
 //        -> keys=<k0>,<k1>,...          reference keys (replay only, function not called)
@@ -47,7 +47,8 @@ func refKeys(seed int64, w []float64) []float64 {
 	keys := make([]float64, len(w))
 	for i := range w {
 		u := rand.Float64()
-		keys[i] = math.Log(w[i]) - math.Log(-math.Log(u))
+		frac, exp := math.Frexp(w[i]) // as randx.lnWeight: exact also for subnormal weights
+		keys[i] = math.Log(frac) + float64(exp)*math.Ln2 - math.Log(-math.Log(u))
 	}
 	return keys
 }
